@@ -23,6 +23,7 @@ Clauses(e) ==
           <<"C18.roundtrip.repeat", e.back2 = e.d /\ e.back3 = e.d>>,
           <<"C18.inside", Inside(e.c, e.h)>>,
           <<"C18.prefix", e.pc = <<>> \/ PrefixClose(e.c, e.pc)>>,
+          <<"C18.fill.area", e.pv = <<>> \/ HalfParallelogram(e.pv, e.c)>>,
           <<"drift.anchor", e.k = m.k /\ e.off = m.off /\ e.fl = m.fl>>,
           <<"drift.centre", Near(e.c[1], Centre(m)[1]) /\ Near(e.c[2], Centre(m)[2])>>,
           <<"drift.back", IJToS(e.c, e.h, e.o) = e.back>> >>
